@@ -7,8 +7,8 @@ wt=/tmp/evs-$id
 git -C /repo worktree remove --force "$wt" 2>/dev/null
 git -C /repo worktree add -q "$wt" HEAD || exit 2
 cd "$wt" && git apply "$dst/patch.diff" || exit 2
-PYTHONPATH=$wt timeout 10800 /venv/bin/python -m pytest -q -p no:cacheprovider --timeout=1800 --continue-on-collection-errors > "$dst/suite.log" 2>&1
-echo "suite re-run (alone, longer timeouts):" >> "$dst/confirm.log"
+PYTHONPATH=$wt timeout 10800 /venv/bin/python -m pytest -q -p no:cacheprovider --timeout=1800 --continue-on-collection-errors ${SUITE_JOBS:+-n $SUITE_JOBS} > "$dst/suite.log" 2>&1
+echo "suite (scratch worktree with the patch${SUITE_JOBS:+, pytest-xdist -n $SUITE_JOBS}):" >> "$dst/confirm.log"
 tail -1 "$dst/suite.log" | tee -a "$dst/confirm.log"
 grep "^FAILED" "$dst/suite.log" | tee -a "$dst/confirm.log"
 tail -400 "$dst/suite.log" > "$dst/suite.tail"; mv "$dst/suite.tail" "$dst/suite.log"
